@@ -107,6 +107,8 @@ pub struct Verdict {
     pub aborted: Option<Violation>,
     pub skipped: Option<String>,
     pub trace: u64,
+    /// API outcomes only (no SimOS events): what must be equal across configurations
+    pub api_trace: u64,
     pub issued: Vec<Step>,
     pub extra_out: Value,
     pub stats: crate::seq::Stats,
